@@ -186,6 +186,23 @@ class Ctx:
             print(f"  violated: [{v.rule}] {loc} :: {v.construct} -- {v.detail}")
             print(f"VIOLATION property={self.prop} replay={rp}")
 
+        meta_problems: typing.List[str] = []
+        if self.tier == "thorough" and not os.environ.get("NVSA_NO_META"):
+            from . import meta
+
+            per_rule: typing.Dict[str, typing.Dict[str, int]] = {r: {"obligations": 0, "discharged": 0} for r in self.rules}
+            for o in self.obligations:
+                per_rule.setdefault(o.rule, {"obligations": 0, "discharged": 0})
+                per_rule[o.rule]["obligations"] += 1
+                per_rule[o.rule]["discharged"] += 1 if o.ok else 0
+            results, meta_problems = meta.cross_examine(self.prop, self.tier, self.root, per_rule)
+            self.controls = dict(self.controls or {}, metamorphic={
+                "what": "the same rules re-run on three behaviour-preserving transformations of the current tree (built in a scratch directory, removed "
+                        "afterwards); each must give the same number of obligations and discharges per rule",
+                "variants": results,
+                "programs_analysed": 1 + len(results),
+                "agree": not meta_problems,
+            })
         self._write_evidence(violations, matched_known, new_violations)
         n_ob = len(self.obligations)
         print(
@@ -197,6 +214,8 @@ class Ctx:
             return 1
         if self.floor_failures:
             raise AnalysisError("; ".join(self.floor_failures))
+        if meta_problems:
+            raise AnalysisError("the analysis does not decide equivalent programs alike - " + " || ".join(meta_problems))
         return 0
 
     def _write_evidence(self, violations, matched_known, new_violations) -> None:
